@@ -228,6 +228,12 @@ def run_property(prop, tier, seed, level, explanation="", trusted_base=(), worke
     known = load_known()
     obs = [(i, ob) for i, ob in enumerate(registry.OBLIGATIONS) if prop in ob.props and (ob.tier == "quick" or tier == "thorough")]
     comps = [(i, c) for i, c in enumerate(registry.COMPONENTS) if prop in c.props and (c.tier == "quick" or tier == "thorough")]
+    only = os.environ.get("PYVC_ONLY")  # development only: run the obligations / components whose name contains this text
+    if only:
+        if OUT == ROOT:
+            raise SystemExit("PYVC_ONLY needs PYVC_OUT (a partial run must not overwrite the evidence)")
+        obs = [(i, ob) for i, ob in obs if only in ob.name]
+        comps = [(i, c) for i, c in comps if only in c.name]
     jobs = []
     for i, ob in obs:
         alts = [{}]
